@@ -1,6 +1,32 @@
-(* C14 — snapshot acceleration and repeated use never change results or the source.  M = Model/SigTimes.v. *)
-From TT Require Import Model.Doc Gen.StyleTables Model.Isd Model.SigTimes Spec.RenderSpec Proofs.C14.Cache.
+(* C14 — snapshot acceleration and repeated use never change results or the source.
+   M = Model/SigTimes.v (cached_docs, content_interval, isd_cached), Model/Isd.v (isd).
+   Proved, for every document without ruby containers (kinds body/div/p/span/br/text: `body_plain`), every
+   rational time: the cached snapshot is the uncached snapshot with whole regions left out — every region it
+   does contain is EQUAL to the uncached one, so acceleration can never show different content.
+   Not proved (full statement): the regions left out paint nothing (soundness of the content interval), and the
+   same for documents with ruby; both are evaluated on the model and on the code by harness/c14.py through
+   Spec/RenderSpec.v.  "The source document is unchanged" holds of an immutable model by construction and is
+   established for the Python object graph by fingerprinted operation histories (testing, harness/c14.py). *)
+From TT Require Import Model.Doc Gen.StyleTables Model.Isd Model.SigTimes Spec.RenderSpec Proofs.C14.Cache Proofs.C14.Restrict.
 
 Theorem C14_cached_docs_small : forall d, (length (d_regions d) <= 1)%nat -> cached_docs d = Ok [d].
 Proof. exact cached_docs_small. Qed.
-Print Assumptions C14_cached_docs_small.
+
+(* snapshot generation reads the document only through its initial values and cell/pixel resolutions *)
+Theorem C14_params_only : forall d d', same_params d d' ->
+  forall t sel e inh par pb pe, proc d t sel inh par pb pe e = proc d' t sel inh par pb pe e.
+Proof. exact proc_ext. Qed.
+
+(* the per-region clone gives the same region snapshot as the document itself *)
+Theorem C14_clone_region_partial : forall d r c t rid o,
+  body_plain d -> e_id (eattrs r) = Some rid -> clone_one_region d r = Ok c ->
+  proc_region d t (Some rid) r = Ok o -> isd c t = Ok (match o with Some x => [x] | None => [] end).
+Proof. exact clone_region_same. Qed.
+
+Theorem C14_cached_omits_regions_partial : forall d t ds rs,
+  body_plain d -> Forall (fun r => exists rid, e_id (eattrs r) = Some rid) (d_regions d) ->
+  cached_docs d = Ok ds -> isd d t = Ok rs -> exists rs', isd_cached d t = Ok rs' /\ omits_regions rs' rs.
+Proof. exact cached_omits_regions. Qed.
+
+Print Assumptions C14_cached_docs_small.  Print Assumptions C14_params_only.
+Print Assumptions C14_clone_region_partial.  Print Assumptions C14_cached_omits_regions_partial.
